@@ -44,7 +44,9 @@ class ListWrapper(typing.MutableSequence[T]):
     def __init__(self, *args: typing.Iterable[T]):
         self._data: typing.List[T] = []
         for values in args:
-            for value in values:
+            # Adding a value can remove it from the collection that owned
+            # it, which may be `values` itself, so take the values first.
+            for value in list(values):
                 self.append(value)
 
     def _add(self, value: T) -> None:
@@ -135,7 +137,7 @@ class ListWrapper(typing.MutableSequence[T]):
     # extend is not in every version of Python 3, so list wrapper adds it here
     # itself.
     def extend(self, other: typing.Iterable[T]) -> None:
-        for v in other:
+        for v in list(other):
             self.append(v)
 
     # end functions for ABC
@@ -160,7 +162,9 @@ class SetWrapper(typing.MutableSet[T]):
     def __init__(self, *args: typing.Iterable[T]):
         self._data: typing.Set[T] = set()
         for arg in args:
-            for v in arg:
+            # Adding a value can remove it from the collection that owned
+            # it, which may be `arg` itself, so take the values first.
+            for v in list(arg):
                 self.add(v)
 
     # begin functions for ABC
@@ -209,8 +213,22 @@ class SetWrapper(typing.MutableSet[T]):
     def __ior__(  # type: ignore
         self: _SetWrapperSelf, other: typing.AbstractSet[T]
     ) -> _SetWrapperSelf:
-        for value in other:
+        for value in list(other):
             self.add(value)
+        return self
+
+    def __ixor__(  # type: ignore
+        self: _SetWrapperSelf, other: typing.AbstractSet[T]
+    ) -> _SetWrapperSelf:
+        # The abc mixin iterates over `other` while it adds its values.
+        if other is self:
+            self.clear()
+            return self
+        for value in list(other):
+            if value in self:
+                self.discard(value)
+            else:
+                self.add(value)
         return self
 
     def pop(self) -> T:
@@ -231,7 +249,7 @@ class SetWrapper(typing.MutableSet[T]):
     # For whatever reason, update isn't included as part of abc.MutableSet.
     def update(self, *others: typing.Iterable[T]) -> None:
         for other in others:
-            for v in other:
+            for v in list(other):
                 self.add(v)
 
     def __str__(self) -> str:
